@@ -7,8 +7,11 @@ Decided:
   R08.a  user code is always under a handler: on every call-graph path from Application.__call__ to the
          calls that run user code (route.execute -> inject(self._execute), execute_error ->
          inject(self.render_error)) some frame encloses the call in a handler catching Exception;
-         RerouteWSGI is re-raised by an earlier, more specific handler and is caught in _dispatch_wsgi; the
-         handler of route.execute keeps an HTTPException as the result (raised == returned) and routes
+         RerouteWSGI is let out again by the first handler that can catch it (a handler of its own that always re-raises,
+         or the generic handler: every way through it not known to handle something else -- no branch taken that says
+         ``isinstance(exc, RerouteWSGI)`` is false -- ends in re-raising the handled exception) and is caught in
+         _dispatch_wsgi; the handler of route.execute keeps an HTTPException as the result (raised == returned: on every way
+         on which the exception is not known not to be one, the result is bound to the exception and not bound again) and routes
          everything else through err_handler.uncaught_to_response; the handler of execute_error falls
          back to default_render_error with the *same* parameters (same error);
   R08.b  non-Response results: the isinstance(ret, BaseResponse) test and its ``raise TypeError`` sit in
@@ -98,6 +101,97 @@ def _is_the_error(dv, cfg, h, asg, e, at):
     return False
 
 
+def reraises_of_handled(h):
+    """The statements of handler ``h`` that raise the exception ``h`` is handling again: a bare ``raise`` that is not inside
+    a handler nested in ``h`` (there it would re-raise the inner exception), ``raise <name>`` when ``h`` binds the exception
+    to that name and nothing in ``h`` re-binds it."""
+    from ..astutil import names_stored
+    rebound = h.name is not None and any(h.name in names_stored(s) for s in h.body)
+    out = []
+
+    def visit(n):
+        for c in ast.iter_child_nodes(n):
+            if isinstance(c, (ast.ExceptHandler, ast.FunctionDef, ast.AsyncFunctionDef, ast.Lambda, ast.ClassDef)):
+                continue
+            if isinstance(c, ast.Raise) and (c.exc is None or (isinstance(c.exc, ast.Name) and c.exc.id == h.name and not rebound)):
+                out.append(c)
+            visit(c)
+    visit(h)
+    return out
+
+
+def _http_ways_keep_the_exception(dv, h, asg, is_http, only_reroute):
+    """On every way through handler ``h`` on which the handled exception is not known to be something else than an
+    HTTPException (no branch taken that says ``isinstance(<exception>, HTTPException)`` is false -- tested on the handler's
+    name, or on the result variable once it holds the exception), the result variable is bound to the exception (``asg``)
+    and not bound again before the handler is left.  Ways on which only a RerouteWSGI is re-raised do not count."""
+    from ..astutil import names_stored
+    cfg = dv.cfg
+    if h.name is None or any(h.name in names_stored(s) for s in h.body):
+        return False
+    hn = cfg.handler_nodes(h)
+    inside = set(id(x) for x in ast.walk(h) if isinstance(x, ast.stmt))
+    inside_nodes = set(hn) | set(n.id for n in cfg.nodes if n.stmt is not None and id(n.stmt) in inside)
+    outside = set(n.id for n in cfg.nodes) - inside_nodes
+    asg_nodes = set(cfg.nodes_of_all(asg))
+    not_http = set(dv.branches_where(lambda t: is_http(t) and norm(t.args[0]) == h.name, False))
+    for nid in dv.branches_where(lambda t: is_http(t) and norm(t.args[0]) == dv.ret_var, False):
+        if nid in inside_nodes and cfg.must_pass(asg_nodes, hn, nid):
+            not_http.add(nid)
+    # every such way binds the exception ...
+    if outside & cfg.reach(hn, avoid=asg_nodes | not_http | set(cfg.nodes_of_all(only_reroute)), normal_only=True):
+        return False
+    # ... and keeps it
+    again = set(n.id for n in cfg.nodes if n.kind == 'stmt' and n.id in inside_nodes and n.id not in asg_nodes and
+                dv.ret_var in names_stored(n.stmt))
+    after = [m for x in asg_nodes for m in cfg.succ[x] if (x, m) not in cfg.exc_edges]
+    return not (again & cfg.reach(after, avoid=not_http | outside))
+
+
+def _is_reroute_test(t, name, exact=False):
+    """``isinstance(<name>, RerouteWSGI)``; unless ``exact`` also ``isinstance(<name>, (.., RerouteWSGI, ..))`` (which, when
+    false, still says the exception is not a RerouteWSGI)"""
+    if name is None or not isinstance_test(t, var=name, cls='RerouteWSGI'):
+        return False
+    return not exact or not isinstance(t.args[1], ast.Tuple) or len(t.args[1].elts) == 1
+
+
+def reroute_passes(dv, f, tr):
+    """A RerouteWSGI raised under ``tr`` (the try around route.execute) leaves dispatch again: the first handler of ``tr``
+    that can catch it is either one for RerouteWSGI alone that re-raises on every way through it, or a wider one (it binds
+    the exception to a name it does not re-bind) in which every way that is not known to handle something else -- a way
+    that took no branch saying ``isinstance(<exception>, RerouteWSGI)`` is false -- ends in re-raising the handled
+    exception.  -> (ok, text naming the handler)"""
+    from ..astutil import exc_names, names_stored
+    cfg = dv.cfg
+    first = None
+    for x in tr.handlers:
+        names = exc_names(x.type)
+        tails = None if names is None else [n.rpartition('.')[2] for n in names]
+        if tails is None or set(tails) & {'RerouteWSGI', 'Exception', 'BaseException'}:
+            first = x
+            break
+    if first is None:
+        return False, ''
+    if tails == ['RerouteWSGI']:
+        return handler_reraises_always(f, first), 'an earlier, more specific handler'
+    if first.name is None or any(first.name in names_stored(s) for s in first.body):
+        return False, ''
+    again = reraises_of_handled(first)
+    if not again:
+        return False, ''
+    not_reroute = dv.branches_where(lambda t: _is_reroute_test(t, first.name), False)
+    hn = cfg.handler_nodes(first)
+    if not hn:
+        return False, ''
+    inside = set(id(s) for s in ast.walk(first) if isinstance(s, ast.stmt))
+    for n in cfg.reach(hn, avoid=set(not_reroute) | set(cfg.nodes_of_all(again)), normal_only=True):
+        if n in hn or (cfg.nodes[n].stmt is not None and id(cfg.nodes[n].stmt) in inside):
+            continue
+        return False, ''           # a way out of the handler that neither re-raised nor is known not to handle a RerouteWSGI
+    return True, 'the handler that catches it, before anything else is done with it'
+
+
 def run(rep):
     repo = rep.repo
     app, route, err = repo.mod(APP), repo.mod(ROUTE), repo.mod(ERR)
@@ -137,10 +231,11 @@ def run(rep):
             tr = [t for t, part in enclosing_tries(app, dv.exec_st, f.node) if part == 'body' and h in t.handlers][0]
             idx = tr.handlers.index(h)
             earlier = tr.handlers[:idx]
-            rr = [x for x in earlier if norm(x.type) == 'RerouteWSGI']
-            ok = len(rr) == 1 and handler_reraises_always(f, rr[0])
-            rep.check('R08.a', fkey(f, 'RerouteWSGI passes'), ok, 'RerouteWSGI is re-raised by an earlier, more specific handler' if ok else
+            ok, how = reroute_passes(dv, f, tr)
+            rep.check('R08.a', fkey(f, 'RerouteWSGI passes'), ok, 'RerouteWSGI is re-raised by %s' % how if ok else
                       'RerouteWSGI is swallowed by the generic handler (or not re-raised)', app, tr)
+            # (a re-raise inside the generic handler that only a RerouteWSGI reaches is not a way "through" the handler)
+            only_reroute = [s for s in reraises_of_handled(h) if has_cond(dv.conds(s), lambda t: _is_reroute_test(t, h.name, exact=True), True)]
             hcfg_nodes = cfg.handler_nodes(h)
             inside = set(id(x) for x in ast.walk(h) if isinstance(x, ast.stmt))
             is_http = lambda t: isinstance_test(t, cls='HTTPException') and norm(t.args[0]) in (dv.ret_var, h.name or '')
@@ -149,11 +244,12 @@ def run(rep):
             utr = [s for s in ast.walk(h) if isinstance(s, ast.Assign) and isinstance(s.value, ast.Call) and call_tail(s.value) == 'uncaught_to_response']
             bind_nodes = cfg.nodes_of_all(asg) + cfg.nodes_of_all([s for s in utr if norm(s.targets[0]) == dv.ret_var])
             # every way through the handler binds the result (to the exception itself or to its conversion) ...
-            left = [n for n in cfg.reach(hcfg_nodes, avoid=bind_nodes, normal_only=True) if n not in hcfg_nodes and
+            left = [n for n in cfg.reach(hcfg_nodes, avoid=bind_nodes + cfg.nodes_of_all(only_reroute), normal_only=True) if n not in hcfg_nodes and
                     (cfg.nodes[n].stmt is None or id(cfg.nodes[n].stmt) not in inside)]
             # ... and the exception itself is what an HTTPException is bound as: first thing, or on the isinstance-true side
             ok = h.name is not None and len(asg) == 1 and not left and \
-                (h.body[0] is asg[0] or has_cond(conds(f, asg[0]), lambda t: is_http(t) and norm(t.args[0]) == h.name, True))
+                (h.body[0] is asg[0] or has_cond(conds(f, asg[0]), lambda t: is_http(t) and norm(t.args[0]) == h.name, True) or
+                 _http_ways_keep_the_exception(dv, h, asg, is_http, only_reroute))
             rep.check('R08.a', fkey(f, 'raised == returned'), ok, 'a raised exception becomes the result (an HTTPException raised is treated like one returned)' if ok else
                       'the handler does not bind the raised exception as the result', app, h)
 
